@@ -344,23 +344,34 @@ def _r12g(rep):
     Z, eps, rl, massf = sp.Function("born"), sp.Function("dielectric"), sp.Function("reclat"), sp.Function("mass")
     v = [sp.Symbol(f"v{a}") for a in range(3)]
     top = cast.kids(cast.body(fn_node))
-    loops = [x for x in top if x.get("kind") == "ForStmt"]
-    if len(loops) != 2:
-        raise AnalysisError("R12g: get_derivative_nac is no longer 'compute q_cart, then fill dnac/ddnac'")
-    first = loops[0]
-    rest = top[top.index(first) + 1:]
+    # the statements up to the last one that writes the Cartesian vector compute it; the rest fills dnac / ddnac
+    # (whatever the nest is split into: precomputed per-atom arrays, hoisted derivatives of the denominator ...)
+    qc = None
+    for d_ in cast.walk(cast.body(fn_node)):
+        if d_.get("kind") == "VarDecl" and "[3]" in cast.qtype(d_) and "double" in cast.qtype(d_):
+            writers = [k_ for k_, x in enumerate(top) if any(y.get("kind") in ("BinaryOperator", "CompoundAssignOperator") and cast.text(cast.kids(y)[0]).startswith(d_["name"] + "[") for y in cast.walk(x))]
+            readers = [y for y in cast.walk(cast.body(fn_node)) if y.get("kind") == "CallExpr" and any(cast.text(a_).strip() == d_["name"] for a_ in cast.call_args(y))]
+            if writers and readers and (qc is None or writers[0] < qc[1][0]):
+                qc = (d_["name"], writers)
+    if qc is None:
+        raise AnalysisError("R12g: get_derivative_nac no longer computes a Cartesian vector that its helpers receive")
+    qc_name, writers = qc
+    first = top[: writers[-1] + 1]
+    first = [x for x in first if x.get("kind") != "DeclStmt"]
+    rest = top[writers[-1] + 1:]
     # (1) which vector is converted to Cartesian coordinates
     for arm, exa, qname in (("q-point", celem.ElemExec(tu, where=DDMC, consts={"PI": sp.pi}, null_pointers={"q_direction"}), "q"), ("direction", celem.ElemExec(tu, where=DDMC, consts={"PI": sp.pi}, nonnull_pointers={"q_direction"}), "q_direction")):
         st0 = celem.State(exa, "get_derivative_nac", {}, {}, 0)
-        st0.local_arrays.add("q_cart")
-        st0.block([first])
-        ok_v = all(sp.expand(st0.cell("q_cart", a) - sum(rl(3 * a + b_) * sp.Function(qname)(b_) for b_ in range(3))) == 0 for a in range(3))
+        st0.local_arrays.add(qc_name)
+        st0.block(first)
+        ok_v = all(sp.expand(st0.cell(qc_name, a) - sum(rl(3 * a + b_) * sp.Function(qname)(b_) for b_ in range(3))) == 0 for a in range(3))
         rep.instance("R12g", DDMC, "get_derivative_nac", f"{arm}: v = reclat . {qname}", ok_v, f"{arm}: the Cartesian vector entering the NAC derivative is not reclat . {qname}", line=line)
     # (2) the fill nest in terms of v
     exv = celem.ElemExec(tu, where=DDMC, consts={"PI": sp.pi}, null_pointers={"q_direction"})
     st = celem.State(exv, "get_derivative_nac", {"num_patom": n, "factor": sp.Symbol("factor")}, {}, 0)
-    st.local_arrays.add("q_cart")
-    st.cells["q_cart"] = [((sp.Integer(a),), (), v[a]) for a in range(3)]
+    st.local_arrays.add(qc_name)
+    st.cells[qc_name] = [((sp.Integer(a),), (), v[a]) for a in range(3)]
+    st.block([x for x in top if x.get("kind") == "DeclStmt"])
     st.block(rest)
     den = sum(v[a] * eps(3 * a + b_) * v[b_] for a in range(3) for b_ in range(3))
     bad_d, bad_dd = [], []
